@@ -94,7 +94,9 @@ fn classify(key: &str, default: &Option<String>) -> String {
         }
     };
     if default.is_none() {
-        // Option<F> currently None: blanket impl (leaves Some(default) after a failed set) or strict
+        // Option<F> currently None: since /repo 32d6403 a failed set restores None for the blanket impl
+        // too, so both impls classify as `opts`; `opt` would only reappear on a regression (and the
+        // strict oracle `invalid-changes-config none-option` then reports it)
         let mut cfg = ConfigOptions::default();
         let failed = cfg.set(key, "\u{1}not-a-value\u{1}").is_err();
         if inner == "str" || inner == "lstr" || !failed {
